@@ -73,7 +73,7 @@ Theorem c10_transparent_filters_get_their_own_rows :
     filter_transparent t f = true ->
     forallb (row_representable t) contents = true ->
     List.filter (matcher_matches t f) (select_rows (batch_wclause t fs) contents) = unbatched_result t f contents.
-Proof. exact batched_one_transparent. Qed.
+Proof. exact cur_one_transparent. Qed.
 Print Assumptions c10_transparent_filters_get_their_own_rows.
 
 Theorem c10_batched_equals_unbatched :
@@ -82,7 +82,7 @@ Theorem c10_batched_equals_unbatched :
     forallb (filter_transparent t) fs = true ->
     forallb (row_representable t) contents = true ->
     batched_results t fs contents = map (fun f => unbatched_result t f contents) fs.
-Proof. exact batched_transparent_exact. Qed.
+Proof. exact cur_transparent_exact. Qed.
 Print Assumptions c10_batched_equals_unbatched.
 
 Theorem c10_any_grouping_of_callers :
@@ -92,7 +92,7 @@ Theorem c10_any_grouping_of_callers :
     forallb (row_representable t) contents = true ->
     Forall (fun ir => snd ir = unbatched_result t (nth_filter fs (fst ir)) contents)
            (batched_by_arrival t fs arrival contents).
-Proof. exact batched_transparent_exact_any_arrival. Qed.
+Proof. exact cur_transparent_exact_any_arrival. Qed.
 Print Assumptions c10_any_grouping_of_callers.
 
 (** The earlier hypothesis is a special case. *)
@@ -110,7 +110,7 @@ Theorem c10_hypothesis_is_necessary :
     filter_comparable t f = true -> filter_transparent t f = false ->
     exists r, In r (witness_rows t f) /\ row_representable t r = true
               /\ hd [] (batched_results t [f; []] [r]) <> unbatched_result t f [r].
-Proof. exact transparency_necessary. Qed.
+Proof. exact cur_transparency_necessary. Qed.
 Print Assumptions c10_hypothesis_is_necessary.
 
 Theorem c10_transparency_characterised :
@@ -119,8 +119,66 @@ Theorem c10_transparency_characterised :
     (filter_transparent t f = true <->
      forall others contents, forallb (row_representable t) contents = true ->
        hd [] (batched_results t (f :: others) contents) = unbatched_result t f contents).
-Proof. exact transparency_exact. Qed.
+Proof. exact cur_transparency_exact. Qed.
 Print Assumptions c10_transparency_characterised.
+
+(** * The proposed repair C10-fix-2 (patches/C10-fix-2.patch)
+
+    The open finding has two directions.  A caller may LOSE rows of its own query (int(10) on an int64 column):
+    TestBatchFilter pins that, it stays.  A caller may also RECEIVE a row its own query does not select (an
+    empty []byte filter is handed the NULL rows fetched for another caller; a pointer to "" on an implicitnull
+    column likewise): nothing pins that, and on a handle with a shard limit it is a row of another shard.  The
+    repair makes the batch function ask the query's row tester (Schema.MakeTester: both sides serialized by the
+    column's Valuer, driverValuesEqual) before it hands a row over.  [matcher_matches_fixed] is the repaired
+    function; the harness probes which of the two the tree under test has and the model follows it. *)
+
+(** For EVERY filter -- no hypothesis on the Go types of its values -- and every set of other callers: what the
+    repaired batch function hands a caller are rows of the caller's own query (those the matcher keeps, in
+    order). *)
+Theorem c10_repaired_never_hands_foreign_rows :
+  forall t fs f contents,
+    table_ok t = true -> columns_ok t = true -> In f fs ->
+    forallb (row_representable t) contents = true ->
+    List.filter (matcher_matches_fixed t f) (select_rows (batch_wclause t fs) contents)
+    = List.filter (matcher_matches_fixed t f) (unbatched_result t f contents).
+Proof. exact fixed_never_hands_foreign_rows. Qed.
+Print Assumptions c10_repaired_never_hands_foreign_rows.
+
+(** The code as it is does hand out foreign rows ([ex_empty_bytes_gains_a_row] below is the witness). *)
+
+(** The repair takes nothing away where the earlier theorem applied: on exactly typed filters the repaired
+    function decides as the matcher does, so they keep getting exactly their own rows. *)
+Theorem c10_repair_keeps_exactly_typed_filters :
+  forall t f r,
+    columns_ok t = true -> filter_exactly_typed t f = true -> row_representable t r = true ->
+    matcher_matches_fixed t f r = matcher_matches t f r.
+Proof. exact fix_keeps_exactly_typed. Qed.
+Print Assumptions c10_repair_keeps_exactly_typed_filters.
+
+(** The exact domain of full transparency for the repaired code: [filter_transparent_fixed], again sufficient
+    and necessary. *)
+Theorem c10_repaired_transparency_characterised :
+  forall t f,
+    table_ok t = true -> columns_ok t = true -> cols_distinct t = true -> filter_comparable t f = true ->
+    (filter_transparent_fixed t f = true <->
+     forall others contents, forallb (row_representable t) contents = true ->
+       hd [] (batched_results_fixed t (f :: others) contents) = unbatched_result t f contents).
+Proof. exact fix_transparency_exact. Qed.
+Print Assumptions c10_repaired_transparency_characterised.
+
+Theorem c10_repaired_batched_equals_unbatched :
+  forall t fs contents,
+    table_ok t = true -> columns_ok t = true ->
+    forallb (filter_transparent_fixed t) fs = true ->
+    forallb (row_representable t) contents = true ->
+    batched_results_fixed t fs contents = map (fun f => unbatched_result t f contents) fs.
+Proof. exact fix_transparent_exact. Qed.
+Print Assumptions c10_repaired_batched_equals_unbatched.
+
+Theorem c10_exactly_typed_filters_are_transparent_after_the_repair :
+  forall t f, columns_ok t = true -> filter_exactly_typed t f = true -> filter_transparent_fixed t f = true.
+Proof. exact exactly_typed_transparent_fixed. Qed.
+Print Assumptions c10_exactly_typed_filters_are_transparent_after_the_repair.
 
 (** The full statement is false: witness F18 (id = int(10) on an int64 column gets no rows when batched). *)
 Theorem c10_full_statement_refuted :
@@ -206,6 +264,16 @@ Example ex_empty_bytes_gains_a_row :
   /\ hd [] (batched_results ex_items [[("data", GBytes "")]; []] [[("id", DInt 0%Z); ("note", DNull); ("data", DNull)]])
      = [[("id", DInt 0%Z); ("note", DNull); ("data", DNull)]]
   /\ unbatched_result ex_items [("data", GBytes "")] [[("id", DInt 0%Z); ("note", DNull); ("data", DNull)]] = [].
+Proof. repeat split; vm_compute; reflexivity. Qed.
+
+(** After the repair the empty []byte filter gets exactly its own rows (it is inside the repaired domain), and
+    F18's filter still loses its row (TestBatchFilter's behaviour is unchanged). *)
+Example ex_repaired :
+  filter_transparent_fixed ex_items [("data", GBytes "")] = true
+  /\ hd [] (batched_results_fixed ex_items [[("data", GBytes "")]; []] [[("id", DInt 0%Z); ("note", DNull); ("data", DNull)]]) = []
+  /\ filter_transparent_fixed ex_items [("id", GInt KI "" 10%Z)] = false
+  /\ batched_results_fixed ex_items [[("id", GInt KI "" 10%Z)]; []] [[("id", DInt 10%Z); ("note", DNull); ("data", DNull)]]
+     = [[]; [[("id", DInt 10%Z); ("note", DNull); ("data", DNull)]]].
 Proof. repeat split; vm_compute; reflexivity. Qed.
 
 Example ex_transparent_not_exactly_typed :
